@@ -24,6 +24,7 @@ SyncProg ==
   \o (IF WithRolling THEN <<A("revisionCache", "r", {"indexer"}), A("fork", "f", {}), A("join", "j", {})>> ELSE <<>>)
   \o <<A("etagCache", "r", {"zcache"}), A("etagCache", "w", {"zcache"})>>
   \o (IF WithSSA THEN <<A("ssaMemo", "r", {"cacheLock"}), A("ssaMemo", "w", {"cacheLock"})>> ELSE <<>>)
+  \o <<A("ssaMemo", "w", {"cacheLock"})>>          \* deleting a child forgets its memo entry, whatever the apply strategy
 \* a per-revision hook goroutine: related objects of its revision + the hook call; writes only its own slot
 RevProg == (IF WithCustomize THEN <<A("customizeCache", "r", {"zcache"}), A("relatedInformers", "r", RelLock), A("relatedCache", "r", {"indexer"})>> ELSE <<>>)
            \o <<A("etagCache", "r", {"zcache"}), A("etagCache", "w", {"zcache"})>>
